@@ -19,6 +19,16 @@ PROP = 'C07'
 PREFERENCE = [b'EXTERNAL', b'DBUS_COOKIE_SHA1', b'ANONYMOUS']
 COOKIE = b'c00c1e5ec12e7'
 _SCRATCH = {}
+_CURRENT = {'cookie': COOKIE}
+
+
+def rotate_cookie(secret):
+    """the server replaces the secret stored under the same context and id
+    (what txdbus's own bus does between two exchanges)"""
+    d = scratch_keyring()
+    with open(os.path.join(d, 'ctx'), 'wb') as f:
+        f.write(b'41 1700000000 ' + secret + b'\n')
+    _CURRENT['cookie'] = secret
 
 
 def scratch_keyring():
@@ -364,7 +374,7 @@ class RefServerPeer:
                 cc, h = binascii.unhexlify(arg.strip()).split()
                 want = binascii.hexlify(hashlib.sha1(
                     binascii.hexlify(b'server-chal') + b':' + cc + b':'
-                    + COOKIE).digest())
+                    + _CURRENT['cookie']).digest())
                 if h == want:
                     self.state = 'begin'
                     return b'OK ' + fakes.GUID
@@ -487,6 +497,36 @@ def _task_live(task):
                                     '%r' % (cut, t_, tr), rep, size=len(t_))
                         res.count('states')
                         res.outcome(tuple(x[1][:12] for x in tr))
+    # two connections one after the other in one process, the server having
+    # replaced the secret under the same context and id in between: the
+    # second handshake must use the keyring as it is then
+    for unix in (False, True):
+        try:
+            outcomes = []
+            for secret in (COOKIE, b'0ther5ecret', COOKIE, b'third'):
+                rotate_cookie(secret)
+                done, tr, viol, n = run_handshake(
+                    (b'DBUS_COOKIE_SHA1',), b'AGREE_UNIX_FD', False, unix)
+                outcomes.append(done)
+                res.count('transitions')
+                res.count('evaluations')
+                res.count('traces')
+                res.count('nontrivial')
+                for sig, what in viol:
+                    res.violation(sig + '/rotated-cookie', what,
+                                  {'part': 'live-rotate', 'unix': unix},
+                                  size=len(tr))
+            if not all(outcomes):
+                res.violation(
+                    '%s/live/incomplete/rotated-cookie/%s'
+                    % (PROP, 'unix' if unix else 'tcp'),
+                    'four consecutive connections to a cookie-only server '
+                    'that replaces the secret (same context and id) between '
+                    'them completed: %r' % (outcomes,),
+                    {'part': 'live-rotate', 'unix': unix}, size=4)
+        finally:
+            rotate_cookie(COOKIE)
+        res.count('states')
     # a server whose cookie challenge names an id the client's keyring does
     # not hold: the client must abandon the mechanism properly and complete
     # with the next one the server accepts
@@ -521,6 +561,61 @@ def _task_live(task):
     return res
 
 
+def _client_transcript(unix, lines, mode):
+    """what the client writes / whether it closes / authenticates when the
+    given server lines arrive line by line, in one read, or byte by byte"""
+    p, t = make_client(unix)
+    data = b''.join(l + b'\r\n' for l in lines)
+    if mode == 'lines':
+        chunks = [l + b'\r\n' for l in lines]
+    elif mode == 'one-read':
+        chunks = [data]
+    else:
+        chunks = [data[i:i + 1] for i in range(len(data))]
+    exc = None
+    for ch in chunks:
+        if t.disconnecting:
+            break
+        try:
+            p.dataReceived(ch)
+        except Exception as e:
+            exc = type(e).__name__
+            break
+    return (t.written(), t.disconnecting, p.auth_calls, exc)
+
+
+def _task_coalesced(task):
+    """differential: however the server's lines are packed into reads, the
+    client behaves as if they had arrived one by one (up to the point where
+    it closes the connection)"""
+    depth, unix = task
+    res = core.Result()
+    n = 0
+    for seq in itertools.product(range(len(LINES)), repeat=depth):
+        lines = [LINES[i] for i in seq]
+        base = _client_transcript(unix, lines, 'lines')
+        for mode in ('one-read', 'bytewise'):
+            got = _client_transcript(unix, lines, mode)
+            n += 1
+            if got != base:
+                res.violation(
+                    '%s/coalesced/%s/%s' % (PROP, mode,
+                                            'unix' if unix else 'tcp'),
+                    'server lines %r delivered %s: client wrote %r (closed '
+                    '%s, authenticated %d, exception %s); line by line it '
+                    'wrote %r (closed %s, authenticated %d, exception %s)'
+                    % ((lines, mode) + got + base),
+                    {'part': 'coalesced', 'lines': [l.decode('latin-1')
+                                                    for l in lines],
+                     'unix': unix, 'mode': mode}, size=depth)
+    res.count('states', len(LINES) ** depth)
+    res.count('transitions', n)
+    res.count('evaluations', n)
+    res.count('traces', n)
+    res.count('nontrivial', n)
+    return res
+
+
 def run(ctx):
     ctx.rule = (
         'part 1: breadth-first search to the fixpoint over sequences of %d '
@@ -536,7 +631,10 @@ def run(ctx):
         'server for each of the 7 non-empty mechanism subsets x 3 answers to '
         'the descriptor negotiation x EXTERNAL with/without DATA round x '
         'both transports, each repeated under every single cut of every '
-        'server line' % len(LINES))
+        'server line. part 3 (differential): every sequence of <= %d server '
+        'lines delivered in one read and byte by byte must produce the '
+        'transcript of line-by-line delivery'
+        % (len(LINES), 2 if ctx.quick else 3))
     ctx.assumptions = [
         'the cookie keyring ~/.dbus-keyrings is redirected to a scratch '
         'directory by wrapping the os module seen by txdbus.authentication',
@@ -548,12 +646,26 @@ def run(ctx):
                         label='client machine, %s transport'
                         % ('UNIX' if unix else 'non-UNIX'))
     ctx.map(_task_live, [ctx.quick])
+    depths = (1, 2) if ctx.quick else (1, 2, 3)
+    ctx.map(_task_coalesced, [(d, u) for d in depths for u in (False, True)])
     ctx.bounds = {'lines': len(LINES)}
 
 
 def replay(data):
     if 'scenario' in data:
         return explore.replay_violation(data)
+    if data.get('part') == 'coalesced':
+        lines = [l.encode('latin-1') for l in data['lines']]
+        base = _client_transcript(data['unix'], lines, 'lines')
+        got = _client_transcript(data['unix'], lines, data['mode'])
+        if got != base:
+            return [('%s/coalesced/%s' % (PROP, data['mode']),
+                     '%r vs %r' % (got, base))]
+        return []
+    if data.get('part') == 'live-rotate':
+        res = _task_live(True)
+        return [(s, v['what']) for s, v in res.violations.items()
+                if 'rotated' in s]
     if data.get('part') == 'live-stale':
         done, tr, viol, _ = run_handshake(
             (b'DBUS_COOKIE_SHA1', b'ANONYMOUS'), data['fd_answer'].encode(),
